@@ -64,6 +64,12 @@ theorem divisionRound_ids (p : Pop R) (e : Event R) :
 /-- every id is below the counter -/
 def IdsBelow (p : Pop R) : Prop := ∀ i ∈ p.ids, i < p.nextId
 
+theorem renumber_ids (fn : Fn R) (cs : List (Cell R)) (k : Nat) :
+    (renumber fn cs k).map (·.id) = List.range' k cs.length := by
+  induction cs generalizing k with
+  | nil => rfl
+  | cons c cs ih => simp only [renumber, List.map_cons, solverInit, List.length_cons, List.range'_succ, ih]
+
 /-- ids of one iteration: a sublist of (old ids that were not mothers ++ fresh ids) -/
 theorem iterate_ids (fn : Fn R) (dt : R) (it : Nat) (p : Pop R) (e : Event R) :
     ∃ k, (iterate fn dt it p e).nextId = p.nextId + k ∧
